@@ -17,7 +17,8 @@ Qed.
 Lemma wf_case_hyps c : wf_case c = true ->
   wf (lw (w c)) /\ (forall t, In t (tests (w c)) -> t_layer t < nlayers (lw (w c))).
 Proof.
-  unfold wf_case. intros H. apply andb_prop in H. destruct H as [H Ht]. apply andb_prop in H. destruct H as [Hw _].
+  unfold wf_case. intros H. apply andb_prop in H. destruct H as [H Ht]. apply andb_prop in H. destruct H as [H _].
+  apply andb_prop in H. destruct H as [Hw _].
   split; [apply wf_world_wf; exact Hw|].
   intros t Hin. rewrite forallb_forall in Ht. apply Nat.ltb_lt. apply Ht. exact Hin.
 Qed.
